@@ -705,8 +705,8 @@ impl Fe {
 
     /// Compute the square of the field element n times
     pub fn square_repeatdly(&self, n: usize) -> Fe {
-        let mut acc = self.square();
-        for _ in 1..n {
+        let mut acc = self.clone();
+        for _ in 0..n {
             acc = acc.square();
         }
         acc
